@@ -9,6 +9,7 @@ mod e2;
 mod e3;
 mod trace;
 mod evidence;
+mod matrix;
 mod model;
 mod panics;
 mod props;
@@ -67,6 +68,7 @@ fn main() {
         "e3-shard" => std::process::exit(props::conc::shard_main(&argv[2..])),
         "e3-debug" => std::process::exit(props::conc::debug_main(&argv[2..])),
         "c16-shard" => std::process::exit(props::c16::shard_main(&argv[2..])),
+        "matrix" => std::process::exit(matrix::main_json()),
         "c19-child" => std::process::exit(props::c19::child_main(&argv[2..])),
         "scenarios" => {
             // debug: run the directed scenarios of one property and print their verdicts
